@@ -2,12 +2,12 @@
 from . import twin
 
 OWNED = ["C10."]
-REQUIRED = ["C10.same_solver.trial_steps_identical", "C10.same_solver.same_solution", "C10.same_solver.same_status", "C10.fresh_solver.trial_steps_identical", "C10.fresh_solver.same_solution", "C10.params_object_not_modified", "C10.same_solver.step_controller_starts_in_the_same_state", "C10.fresh_solver.step_controller_starts_in_the_same_state"]
+REQUIRED = ["C10.same_solver.trial_steps_identical", "C10.same_solver.same_solution", "C10.same_solver.same_status", "C10.fresh_solver.trial_steps_identical", "C10.fresh_solver.same_solution", "C10.params_object_not_modified", "C10.same_solver.step_controller_starts_in_the_same_state", "C10.fresh_solver.step_controller_starts_in_the_same_state", "C10.real_controllers.same_trial_points_step_sizes_and_penalties", "C10.real_controllers.same_newton_iterates", "C10.real_controllers.same_solution"]
 META = dict(
     functions_encoded=twin.FUNCTIONS,
-    stubs=["three solves in ONE symbolic execution: A on a new Solver, B on the same Solver object, C on a fresh Solver afterwards; the step oracle of B and C replays the outputs A received, the user problem is the same uninterpreted functions"],
+    stubs=["real-controller composition: two solves with the real step controllers, Newton methods and PI controller; the oracle sits behind the public Params.step_solver hook and the second solve replays its outputs by call index; termination reduced to the iteration budget (the termination tests are covered by the L1 composition)", "three solves in ONE symbolic execution: A on a new Solver, B on the same Solver object, C on a fresh Solver afterwards; the step oracle of B and C replays the outputs A received, the user problem is the same uninterpreted functions"],
     assumptions=twin.loop.LOOP_ASSUMPTIONS + ["the step controller is created inside solve() (checked by reading: solver.py) -- its memory is therefore per solve; the L1 oracle stands for it"],
-    bounds=dict(quick="K=2 trial steps per solve, n=1, m<=1, policies DualNorm, ObjectiveFilter, DualEquilibration", thorough="K=3, all six policies"),
+    bounds=dict(quick="real controllers: K=2 trial steps per solve, n=1, <=4 Newton solves, DistanceRatio / ResiduumRatio / Exact; L1: K=2 trial steps per solve, n=1, m<=1, policies DualNorm, ObjectiveFilter, DualEquilibration", thorough="K=3, all six policies"),
     outside=["bit-identity in floating point", "state inside the compiled linear solvers"],
     explanation="Self-composition: the repeated and the fresh solve ask for identical trial steps (iterate, rho, dt terms) and return identical status / solution / counters on every path; the Params object is not modified.",
 )
@@ -21,4 +21,10 @@ def tasks(tier):
     for pol in ("DualNorm", "ObjectiveFilter", "DualEquilibration") if q else twin.loop.POLICIES:
         for cons in ([], ["eq0"]) if pol != "DualEquilibration" else (["eq0"],):
             t.append(dict(module="twin", fn="h_repeat", shape=dict(K=K, policy=pol, vars=["boxed"], cons=cons), opts=o))
+    # the REAL step controllers (PI-controller memory, step-size memory) across two solves
+    for c in ("DistanceRatio", "ResiduumRatio", "Exact"):
+        for v, fresh in ((["boxed"], False), (["free"], True)):
+            t.append(dict(module="twin", fn="h_repeat_l2", shape=dict(K=K, controller=c, vars=v, cons=[], max_solves=4 if q else 6, fresh_solver=fresh, faults=not q), opts=o))
+    if not q:
+        t.append(dict(module="twin", fn="h_repeat_l2", shape=dict(K=2, controller="DistanceRatio", vars=["boxed"], cons=["eq0"], max_solves=4), opts=o))
     return t
